@@ -77,6 +77,9 @@ func c19Doc(frames []string, where string) string {
 		fr = "<table><tr><td>" + pc() + fr + "</td></tr></table>"
 	case "picture":
 		fr = "<picture><source srcset=\"http://neutral.example/i.webp 1x\"><img src=\"http://neutral.example/i.jpg\" width=\"400\" height=\"300\">" + fr + "</picture>"
+	case "tweet":
+		// inside a genuine tweet quotation, which is kept whole inside its placeholder
+		fr = "<blockquote class=\"twitter-tweet\"><p>" + t.W(6) + "</p>" + fr + "<a href=\"https://twitter.com/someone/status/5550001\">" + t.W(2) + "</a></blockquote>"
 	case "figure-picture":
 		fr = "<figure><picture><img src=\"http://neutral.example/i.jpg\" width=\"400\" height=\"300\"><span>" + fr + "</span></picture><figcaption>" + t.W(3) + "</figcaption></figure>"
 	}
@@ -138,7 +141,7 @@ func c19Enumerate(tier string, emit func(*eng.Case)) {
 		if f.path > 3 {
 			continue
 		}
-		for _, where := range []string{"table", "caption", "layout", "picture", "figure-picture"} {
+		for _, where := range []string{"table", "caption", "layout", "picture", "figure-picture", "tweet"} {
 			emit(&eng.Case{Kind: "frame-" + where, URL: c19Page, HTML: c19Doc([]string{c19Frame(c19Tags[f.tag], src(f))}, where), P: map[string]string{"doc": where + ": " + desc(f)}})
 		}
 	}
@@ -348,12 +351,20 @@ func c19Check(c *eng.Case) *eng.Outcome {
 	}
 	// no stray frames
 	ora.Walk(a.Res.Node, func(n *html.Node) bool {
-		if ora.IsPlaceholder(n) {
-			return false
-		}
 		if n.Type == html.ElementNode && (n.Data == "iframe" || n.Data == "object") {
+			if n.Parent != nil && ora.IsPlaceholder(n.Parent) {
+				return false // the frame that the placeholder stands for
+			}
 			if ora.Ancestor(n, "table") == nil && ora.Ancestor(n, "figcaption") == nil {
-				o.V("stray-frame:"+n.Data, "<%s> in the distilled HTML outside a placeholder, data table or caption; %s", n.Data, c.Get("doc"))
+				where := "outside a placeholder, data table or caption"
+				sig := "stray-frame:" + n.Data
+				for p := n.Parent; p != nil; p = p.Parent {
+					if ora.IsPlaceholder(p) {
+						where = "nested inside the quotation of a " + ora.AttrV(p, "data-type") + " placeholder"
+						sig = "stray-frame-in-placeholder:" + n.Data
+					}
+				}
+				o.V(sig, "<%s src=%q> in the distilled HTML %s; %s", n.Data, ora.AttrV(n, "src")+ora.AttrV(n, "data"), where, c.Get("doc"))
 			}
 		}
 		return true
@@ -368,7 +379,7 @@ func init() {
 		ID:        "C19",
 		DesignRef: "§5 C19",
 		Rule: "source URLs = 4 schemes (http, https, scheme-relative, none) x 5 services (4 allow-listed + vimeo.com) x 18 host forms (exact, www, deep subdomain, suffix/prefix look-alikes, userinfo tricks, name in path/query/fragment, port, upper case, trailing dot) x 15 path/query shapes (ids with an escaped quote or angle brackets) x 5 tag kinds (iframe, object data, object param, twitter blockquote, rendered-tweet iframe): full product in the article body; " +
-			"the frames with the 1 (quick) / 4 (thorough) leading path shapes also inside a data-table cell, a figure caption, a layout table, a <picture> that has an <img>, and a figure>picture>span; every scheme-relative (thorough: also absolute) source once more without any page URL; frames with an empty, fragment-only or missing source on pages that live on an allow-listed host; thorough adds pairs of frames." + crossRule + " Oracle: every embed placeholder maps to a source frame whose reference-parsed host is an allow-listed host of its data-type or a subdomain, with data-id = last non-empty path segment (resp. data-tweet-id); no iframe/object outside placeholder, table or caption. " +
+			"the frames with the 1 (quick) / 4 (thorough) leading path shapes also inside a data-table cell, a figure caption, a layout table, a <picture> that has an <img>, a figure>picture>span, and the quotation of a genuine tweet; every scheme-relative (thorough: also absolute) source once more without any page URL; frames with an empty, fragment-only or missing source on pages that live on an allow-listed host; thorough adds pairs of frames." + crossRule + " Oracle: every embed placeholder maps to a source frame whose reference-parsed host is an allow-listed host of its data-type or a subdomain, with data-id = last non-empty path segment (resp. data-tweet-id); no iframe/object other than the one a placeholder stands for outside table or caption (nested ones inside a tweet quotation included). " +
 			"Non-trivial = a look-alike source is present or a placeholder was produced.",
 		Enumerate: c19Enumerate,
 		Check:     c19Check,
